@@ -279,7 +279,9 @@ def resolver_resolve(
                 fall_back_on_default=False,
                 schema=param_field.schema,
             )
-            opt_param = is_union_of(param_type, NoneType) or param.default is None
+            # a None default makes the argument nullable in the schema, but null is not
+            # a value of its type: it designates the default and is not deserialized
+            opt_param = is_union_of(param_type, NoneType)
             parameters.append(
                 (
                     aliaser(param_field.alias),
